@@ -51,14 +51,18 @@ def run_property(prop, tier, seed, replay=None):
 
     # ---- stage 5: generate
     rng = random.Random(seed)
+    replay_stream = None
     if replay:
         rp = json.load(open(replay))
-        cases = [rp["input"]] if "input" in rp and rp["input"] is not None else []
+        replay_stream = rp.get("stream")
+        cases = [rp["input"]] if "input" in rp and rp["input"] is not None and not replay_stream else []
         for i, c in enumerate(cases):
             c["id"] = i
         if not cases:
-            # broken-obligation replay: re-run the normal generation
-            cases = prop.gen(rng, tier)
+            # broken-obligation replay (or the replay of an extra stream's input): re-run the normal generation
+            cases = prop.corpus() + prop.gen(rng, tier)
+            for i, c in enumerate(cases):
+                c["id"] = i
     else:
         corpus = prop.corpus()
         cases = corpus + prop.gen(rng, tier)
@@ -99,9 +103,10 @@ def run_property(prop, tier, seed, replay=None):
 
     # ---- extra validation streams (environment models): a disagreement breaks the tie
     extra_cov = {}
+    extra_violations = []
     for ex in getattr(prop, "extra_streams", []):
         xwd = os.path.join(workdir, "extra_" + ex.id)
-        xcases = ex.gen(rng, tier)
+        xcases = [rp["input"]] if replay_stream == ex.id else ex.gen(rng, tier)
         for i, c in enumerate(xcases):
             c["id"] = i
         xobs = ex.run_impl(xcases, xwd)
@@ -113,6 +118,13 @@ def run_property(prop, tier, seed, replay=None):
         xbad = sorted(set(xev["bad_hold"]) | set(xev["bad_agree"]))
         extra_cov[ex.id] = {"evaluations": len(xcases), "disagreements": len(xbad), "rule": ex.rule,
                             "distribution": ex.distribution(xcases, xobs) if hasattr(ex, "distribution") else {}}
+        if getattr(ex, "decides_property", False) and xev["bad_hold"]:
+            # a stream that decides part of the property itself (not an environment model): its verified oracle
+            # rejecting an observation is a violation with that input
+            xb = {c["id"]: c for c in xcases}
+            cid = min(xev["bad_hold"], key=lambda i: len(json.dumps(xb[i])))
+            extra_violations.append((ex.id, xb[cid], xobs[cid]))
+            continue
         if xbad:
             xb = {c["id"]: c for c in xcases}
             rp = write_replay(ex.id, {"property": ex.id, "kind": "counterexample", "seed": seed,
@@ -151,11 +163,16 @@ def run_property(prop, tier, seed, replay=None):
                                   "explain": prop.explain(c, o) if hasattr(prop, "explain") else ""})
         out_lines.append(f"VIOLATION property={pid} replay={os.path.relpath(path, VERIF)}")
         exit_code = 1
+    for sid, c, o in extra_violations:
+        path = write_replay(pid, {"property": pid, "kind": "counterexample", "seed": seed, "stream": sid, "input": c,
+                                  "observed": o, "judgement": sid})
+        out_lines.append(f"VIOLATION property={pid} replay={os.path.relpath(path, VERIF)}")
+        exit_code = 1
     if agree_ok and bad_agree and not violations:
         only_agree = [i for i in bad_agree if i not in set(bad_hold)]
         if only_agree:
             broken.append(f"correspondence {prop.stream}: model and implementation differ on {len(only_agree)} cases")
-    if broken and not violations:
+    if broken and not violations and not extra_violations:
         only_agree = [i for i in bad_agree if i not in set(bad_hold)][:5]
         path = write_replay(pid, {"property": pid, "kind": "broken-obligation", "seed": seed, "input": None,
                                   "obligation": broken,
@@ -195,7 +212,8 @@ def run_property(prop, tier, seed, replay=None):
         "exhaustive": bool(getattr(prop, "exhaustive", False)),
         "environment_model_streams": extra_cov,
     }
-    write_evidence(pid, tier, seed, coverage, prop.assumptions, T.s(), len(violations) + (1 if broken and not violations else 0))
+    write_evidence(pid, tier, seed, coverage, prop.assumptions, T.s(),
+                   len(violations) + len(extra_violations) + (1 if broken and not violations and not extra_violations else 0))
     for line in out_lines:
         print(line)
     log(f"{pid}: {len(cases)} cases, {len(bad_hold)} oracle rejections, {len(bad_agree)} disagreements, "
